@@ -1,6 +1,6 @@
 // Kani harnesses for crate::matchers (child module).  C10-H2 / C06 / C15: case-insensitive backreference
 // and the match-time fold relation.
-#![allow(dead_code, unused_imports, unused_variables, unused_mut)]
+#![allow(dead_code, unused_imports, unused_variables, unused_mut, static_mut_refs)]
 use super::*;
 use crate::cursor::{Backward, Forward};
 use crate::indexing::{InputIndexer, Utf8Input};
@@ -47,15 +47,59 @@ fn enc(c: u32, buf: &mut [u8], at: usize) -> usize {
     }
 }
 
-/// haystack = [pad] [captured char c1] [candidate char c2]; the captured group is the middle char, so
-/// it does NOT start at offset 0; the backreference is tried at the position after it (forward) or the
-/// candidate is placed before it (backward).
+// ---- fold_code_point as an ARBITRARY deterministic function (compositional: the table lemmas
+// c10_fold_lemma_* / c10_legacy_upper_* tie the real fold_code_point to the oracle for every code point; here the
+// users of the relation are checked for EVERY possible fold function, which keeps the table searches out of
+// the solver instance - with the real tables the harness ran out of memory at 20 GB) ----
+// (one array with a unique initial content: see the note on aliasing statics in lib/mirror.py)
+static mut VERIF_FOLD_TAB: [(u32, u32); 3] = [(0xFFFF_FF01, 0xFFFF_FF11), (0xFFFF_FF02, 0xFFFF_FF12), (0xFFFF_FF03, 0xFFFF_FF13)];
+static mut VERIF_FOLD_BAD: [u32; 2] = [0xFFFF_FF21, 0xFFFF_FF22];
+
+pub fn stub_fold_code_point(c: u32, _unicode: bool) -> u32 {
+    unsafe {
+        let mut i = 0;
+        while i < 3 {
+            if VERIF_FOLD_TAB[i].0 == c {
+                return VERIF_FOLD_TAB[i].1;
+            }
+            i += 1;
+        }
+        VERIF_FOLD_BAD[0] = 1; // a character that is not part of the haystack was folded
+    }
+    c
+}
+
+fn fold_model(c: u32) -> u32 {
+    // UTF8CharProperties::fold: char::from_u32(fold_code_point(c)).unwrap_or(c)
+    let v = stub_fold_code_point(c, true);
+    if v <= 0x10FFFF && !(v >= 0xD800 && v <= 0xDFFF) {
+        v
+    } else {
+        c
+    }
+}
+
+fn any_scalar() -> u32 {
+    let c: u32 = kani::any();
+    kani::assume(c <= 0x10FFFF && !(c >= 0xD800 && c <= 0xDFFF));
+    c
+}
+
+/// haystack = [pad] [captured char c1] [candidate char c2]; the captured group is the middle char, so it does
+/// NOT start at offset 0; the backreference is tried at the position after it (forward) or the candidate is
+/// placed before it (backward).
 fn backref_icase_body(unicode: bool, fwd: bool) {
-    let pad: u32 = kani::any();
-    let c1: u32 = kani::any();
-    let c2: u32 = kani::any();
-    for c in [pad, c1, c2] {
-        kani::assume(c <= 0x10FFFF && !(c >= 0xD800 && c <= 0xDFFF));
+    let pad = any_scalar();
+    let c1 = any_scalar();
+    let c2 = any_scalar();
+    let (v0, v1, v2): (u32, u32, u32) = (kani::any(), kani::any(), kani::any());
+    // a function: equal arguments have equal values
+    kani::assume(pad != c1 || v0 == v1);
+    kani::assume(pad != c2 || v0 == v2);
+    kani::assume(c1 != c2 || v1 == v2);
+    unsafe {
+        VERIF_FOLD_TAB = [(pad, v0), (c1, v1), (c2, v2)];
+        VERIF_FOLD_BAD = [0, 0];
     }
     let mut buf = [0u8; 12];
     let mut off = [0usize; 4];
@@ -78,45 +122,29 @@ fn backref_icase_body(unicode: bool, fwd: bool) {
     } else {
         backref_icase(&input, Backward::new(), range, &mut pos)
     };
-    let tab: &[(u32, u32)] = if unicode { &fo::FOLD_REP } else { &fo::UPPER_CANON };
-    let mut want = c1 == c2 || lookup(tab, c1) == lookup(tab, c2);
-    if verif_cfg::KF_C10_LEGACY_MULTI_UPPER && !unicode {
-        // known finding C10-legacy-multi-upper: excluded here (see unicode_h.rs)
-        let mut lo = 0usize;
-        let mut hi = fo::MULTI_UPPER.len();
-        let mut excl = false;
-        while lo < hi {
-            let mid = lo + (hi - lo) / 2;
-            let k = fo::MULTI_UPPER[mid].0;
-            if k == c1 || k == c2 {
-                excl = true;
-            }
-            if k < c1 {
-                lo = mid + 1;
-            } else {
-                hi = mid;
-            }
-        }
-        kani::assume(!excl);
-    }
-    assert!(r == want, "case-insensitive backreference must follow the canonical-equivalence relation");
+    let want = c1 == c2 || fold_model(c1) == fold_model(c2);
+    assert!(r == want, "a case-insensitive backreference matches exactly when both characters have the same canonical form");
+    assert!(unsafe { VERIF_FOLD_BAD[0] } == 0, "only characters of the haystack are folded");
     if r {
         assert!(input.pos_to_offset(pos) == if fwd { off[3] } else { off[0] });
     }
     kani::cover!(r && c1 != c2, "a case pair matched");
     kani::cover!(!r, "a mismatch");
+    kani::cover!(r && c1 < 0x80 && c2 >= 0x80, "an ASCII character matched a non-ASCII one");
 }
 
-// @verif props=C10,C15,C06 tier=quick timeout=2400 unwind=14 c15=index,safe,index_safe c15q=all bound="captured text = 1 symbolic scalar not at offset 0, candidate = 1 symbolic scalar; u/v folding; forward" funcs="matchers::backref_icase,Utf8Input::subinput,fold_equals,UTF8CharProperties::fold,unicode::fold"
+// @verif props=C10,C15,C06 tier=quick qprops=C10,C15 timeout=1800 mem=12 unwind=6 c15=index,safe,index_safe c15q=all bound="haystack = padding, captured character, candidate: 3 symbolic scalars; fold = arbitrary function; forward" funcs="matchers::backref_icase,Utf8Input::subinput,InputIndexer::fold_equals,UTF8CharProperties::fold,next_right" stubs="unicode::fold_code_point -> arbitrary deterministic function on the haystack's characters (tied to the oracle tables by c10_fold_lemma_*/c10_legacy_upper_*)"
 #[kani::proof]
-#[kani::unwind(14)]
-fn c10_backref_icase_unicode_fwd() {
-    backref_icase_body(true, true);
+#[kani::unwind(6)]
+#[kani::stub(crate::unicode::fold_code_point, stub_fold_code_point)]
+fn c10_backref_icase_fwd() {
+    backref_icase_body(kani::any(), true);
 }
 
-// @verif props=C10,C15,C06 tier=quick timeout=2400 unwind=14 c15=index,safe,index_safe c15q=all bound="captured text = 1 symbolic scalar, candidate before it; u/v folding; backward (lookbehind)" funcs="matchers::backref_icase,Utf8Input::subinput,fold_equals"
+// @verif props=C10,C15,C06 tier=quick qprops=C10,C15 timeout=1800 mem=12 unwind=6 c15=index,safe,index_safe bound="haystack = candidate, captured character, padding: 3 symbolic scalars; fold = arbitrary function; backward (lookbehind)" funcs="matchers::backref_icase,Utf8Input::subinput,InputIndexer::fold_equals,UTF8CharProperties::fold,next_left" stubs="unicode::fold_code_point -> arbitrary deterministic function on the haystack's characters (tied to the oracle tables by c10_fold_lemma_*/c10_legacy_upper_*)"
 #[kani::proof]
-#[kani::unwind(14)]
-fn c10_backref_icase_unicode_bwd() {
-    backref_icase_body(true, false);
+#[kani::unwind(6)]
+#[kani::stub(crate::unicode::fold_code_point, stub_fold_code_point)]
+fn c10_backref_icase_bwd() {
+    backref_icase_body(kani::any(), false);
 }
